@@ -1035,6 +1035,28 @@ func codecOtherModes(mode string, rng *rand.Rand, stt *stats, w *evWriter, n int
 			c.Rels = []relShape{ro, rm}
 			// the second to-one / to-many relationships: map iteration decides which is decoded first
 			so2, sm2 := shapes[rng.Intn(len(shapes))], shapes[rng.Intn(len(shapes))]
+			if i < 49*8 {
+				// every pair of shapes for the two to-one (and the two to-many) relationships, eight times each:
+				// which of the two is decoded first is the runtime's choice (map iteration)
+				k := i % 49
+				so, so2 = shapes[k%7], shapes[k/7]
+				sm, sm2 = shapes[(k+i/49)%7], shapes[(k/7+i/49)%7]
+				ro.Shape, rm.Shape = so, sm
+				ro.Listed, rm.Listed = []string{}, []string{}
+				if so == "ident" || so == "identbadtype" {
+					ro.Listed = []string{"u"}
+				}
+				if so == "list" {
+					ro.Listed = []string{"v", "u"}
+				}
+				if sm == "ident" || sm == "identbadtype" {
+					rm.Listed = []string{"v"}
+				}
+				if sm == "list" {
+					rm.Listed = []string{"u", "u", "w"}
+				}
+				c.Rels = []relShape{ro, rm}
+			}
 			ro2 := relShape{Name: "o2", To1: true, Shape: so2, Listed: []string{}}
 			rm2 := relShape{Name: "m2", To1: false, Shape: sm2, Listed: []string{}}
 			if so2 == "ident" || so2 == "identbadtype" {
@@ -1049,7 +1071,7 @@ func codecOtherModes(mode string, rng *rand.Rand, stt *stats, w *evWriter, n int
 			if sm2 == "list" {
 				rm2.Listed = []string{"x", "w", "x"}
 			}
-			if i%3 != 0 {
+			if i%3 != 0 || i < 49*8 {
 				c.Rels = append(c.Rels, ro2, rm2)
 			}
 			ev := runPayload(c)
